@@ -153,7 +153,7 @@ func oneRound(seed int64, db *badger.DB, round int) {
 	s.SetQueryEventDuration(2 * time.Millisecond)
 	// per-group memory touched without synchronisation from the group's callbacks only
 	mem := map[string]*int{}
-	for _, g := range []string{"test.r.a", "test.r.b", "grp.x", "grp.y", "shared"} {
+	for _, g := range []string{"test.r.a", "test.r.b", "grp.x", "grp.y", "shared", "test.sub.late.1", "test.sub.x.1"} {
 		mem[g] = new(int)
 	}
 	touch := func(g string) { TouchGroupMemory(mem, g) }
@@ -189,6 +189,13 @@ func oneRound(seed int64, db *badger.DB, round int) {
 		}),
 		res.Auth("a", func(r res.AuthRequest) { touch(r.Group()); r.TokenEvent(nil); r.OK(nil) }),
 	)
+	// a mounted mux, and a handler registered on the service afterwards whose pattern passes through the
+	// mount point (no Group option: the resource name is the group); their memory is keyed by resource name
+	sub := res.NewMux("")
+	sub.Handle("x.$id", res.GetModel(func(r res.ModelRequest) { touch(r.ResourceName()); r.NotFound() }), res.Call("m", func(r res.CallRequest) { touch(r.ResourceName()); r.OK(nil) }))
+	s.Mount("sub", sub)
+	s.Handle("sub.late.$id", res.Access(func(r res.AccessRequest) { touch(r.ResourceName()); r.AccessGranted() }),
+		res.GetModel(func(r res.ModelRequest) { touch(r.ResourceName()); r.NotFound() }), res.Call("m", func(r res.CallRequest) { touch(r.ResourceName()); r.OK(nil) }))
 	s.Handle("g.$id", res.Group("grp.${id}"), res.GetCollection(func(r res.CollectionRequest) { touch(r.Group()); r.Collection([]int{1}) }))
 	s.Handle("sh.$id", res.Group("shared"), res.GetModel(func(r res.ModelRequest) { touch(r.Group()); r.NotFound() }))
 	s.Handle("par.$id", res.Parallel(true), res.GetModel(func(r res.ModelRequest) { r.NotFound() }),
@@ -253,7 +260,7 @@ func oneRound(seed int64, db *badger.DB, round int) {
 			f(rand.New(rand.NewSource(sd)))
 		}()
 	}
-	names := []string{"test.r.a", "test.r.b", "test.g.x", "test.g.y", "test.sh.1", "test.sh.2", "test.par.1", "test.ms.1", "test.bs.1"}
+	names := []string{"test.r.a", "test.r.b", "test.g.x", "test.g.y", "test.sh.1", "test.sh.2", "test.par.1", "test.ms.1", "test.bs.1", "test.sub.late.1", "test.sub.late.1", "test.sub.x.1"}
 	// request delivery (one goroutine: it stands for the NATS client)
 	goer(func(r *rand.Rand) {
 		for i := 0; i < 150; i++ {
